@@ -1,6 +1,6 @@
 (* C12 — entry points for Properties/C12.v: the full statement, the proved part, examples. *)
 From Coq Require Import ZArith List String Bool Lia.
-From Acme.C12 Require Import Proto NetModel Save Load Proj Domain ProofsRT5 ProofsRT7 ProofsSel.
+From Acme.C12 Require Import Proto NetModel Save Load Proj Domain ProofsRT5 ProofsRT7 ProofsRT8 ProofsSel.
 Import ListNotations.
 Open Scope Z_scope.
 Open Scope string_scope.
@@ -12,8 +12,11 @@ Definition load_save_full_statement : Prop :=
   forall now n, wfb n = true -> in_domain n = true ->
     exists n', load now (save n) = Ok n' /\ proj n' = proj n.
 
-(* ---- instances: hypotheses satisfiable by non-trivial networks; the full statement holds on a
-   network with a multiplexer (fixed and multi-group members) *)
+Lemma load_save_full_statement_holds : load_save_full_statement.
+Proof. intros now n Hwf Hdom. exists (canon n). apply load_save_lemma; auto. Qed.
+
+(* ---- instances: the hypotheses are satisfiable by non-trivial networks, with and without
+   multiplexers (fixed and multi-group members) *)
 Definition pe (id name : string) : option PEntity :=
   Some {| pe_id := id; pe_kind := 0; pe_name := name; pe_desc := "d"; pe_time := Some (1700000000, 5) |}.
 Definition ex_std (id name ty : string) : PSignal := PSig (pe id name) 1 3 4607182418800017408 [] (PSBStd ty "u").
